@@ -81,6 +81,12 @@ def judge_a(t):
             last_info = c.res[0] if c.ok else None
         elif c.site == 'symtab.genCode' and c.ok and last_info is not None and (c.mib, c.ctx) in taken_names:
             parsed[c.mib] = (last_info, c.ctx)
+    true_mtime = {}
+    if not scn.get('realfs') and not scn.get('callback_sources'):
+        for a_ in cs.attempts_of(t):
+            if a_['ok'] and isinstance(a_['src'], int) and a_['src'] < len(scn.get('sources', ())):
+                for (m_, _x, _y) in a_['mods']:
+                    true_mtime[m_] = scn['sources'][a_['src']].get('mtime', core.EPOCH0)
     requested_mods = set(m for a_ in cs.attempts_of(t) if a_['ok'] and a_['name'] in scn['requested'] for (m, _x, _y) in a_['mods'])
     gen_calls = {}
     for c in t.by('codegen.genCode'):
@@ -107,6 +113,9 @@ def judge_a(t):
                 V('C10.3-rebuild', 'searcher received rebuild=%r for a call with rebuild=%r' % (c.kw.get('rebuild'), rebuild), what='rebuild-arg')
             if stage == 0 and m in parsed and c.kw.get('mtime') != parsed[m][0].mtime:
                 V('C10.1-searcher-order', 'searcher asked about %s with mtime %r, the source has %r' % (m, c.kw.get('mtime'), parsed[m][0].mtime), what='mtime-arg')
+            if stage == 0 and m in parsed and m in true_mtime and c.kw.get('mtime') != true_mtime[m]:
+                # ground truth: the modification time the scenario gave the source that supplied the module
+                V('C10.1-searcher-order', 'searcher asked about %s with mtime %r, the source that supplied it is stamped %r' % (m, c.kw.get('mtime'), true_mtime[m]), what='mtime-truth')
         lastfresh = cl[-1].exc is not None and type(cl[-1].exc).__name__ == 'PySmiFileNotModifiedError'
         if not lastfresh and len(cl) < nse:
             V('C10.1-searcher-order', 'search for %s stopped after searcher %d without a fresh answer (%d searchers)' % (m, cl[-1].comp, nse), what='gave-up-early')
